@@ -19,6 +19,7 @@ ASSUMPTIONS = ['inside the documented strictness band |x_i - f| <= 4*tolerance(f
 CLASSES = {
     'single': {'quick': 5000, 'thorough': 240000},
     'multi': {'quick': 1500, 'thorough': 60000},
+    'same_variable': {'quick': 800, 'thorough': 30000},
     'interleaved': {'quick': 800, 'thorough': 30000},
     'bounds': {'quick': 700, 'thorough': 30000},
     'named_collision': {'quick': 60, 'thorough': 1200},
@@ -222,6 +223,50 @@ def run_multi(rng, obs):
     obs.notes = {'violated_before': viol}
 
 
+def run_same_variable(rng, obs):
+    """several relations on ONE left-hand variable whose right-hand sides do not involve it: a bound together with a forbidden value
+    (also a forbidden value that coincides with the bound), or a lower with an upper bound; all must hold on the output"""
+    n = rng.choice([1, 2, 3, 5])
+    variables, names = gen_names(rng, n)
+    i = rng.randrange(n)
+    others = [v for v in names if v != names[i]]
+    def rhs_expr():
+        if others and rng.random() < 0.5:
+            return '%s + %s' % (rng.choice(others), repr(rng.choice([0.0, 1.0, -2.5, 3.0])))
+        return repr(rng.choice([0.0, 1.0, -2.5, 3.0, 0.5, 1e3, -40.0]))
+    kind = rng.choice(['bound_neq_same', 'bound_neq_same', 'bound_neq_other', 'interval'])
+    a = rhs_expr()
+    if kind == 'interval':
+        lines = [(names[i], '>=', a), (names[i], '<=', '%s + %s' % (a, repr(rng.choice([0.5, 2.0, 10.0]))))]
+    else:
+        b = a if kind == 'bound_neq_same' else rhs_expr()
+        lines = [(names[i], rng.choice(['>=', '<=']), a), (names[i], '!=', b)]
+    if rng.random() < 0.5: lines = lines[::-1]
+    text = '\n'.join('%s %s %s' % l for l in lines)
+    x = gen_x(rng, n)
+    env = T.env_of(names, x)
+    fs = [T.value(r, env) for _, _, r in lines]
+    place = rng.random()
+    if place < 0.3: x[i] = fs[0]                                             # exactly on the (first) right-hand side
+    elif place < 0.65: x[i] = fs[0] + rng.choice([-1, 1]) * rng.choice([1e-3, 1.0, 50.0]) * max(1.0, abs(fs[0]))
+    obs.desc = {'text': text, 'variables': variables if isinstance(variables, str) else names, 'n': n, 'x': x, 'kind': kind}
+    c = compile_constraint(text, variables, n)
+    y = [float(v) for v in c(list(x))]
+    viol = 0
+    for (l, cmp, r), f in zip(lines, fs):
+        tolf = T.tolerance(f)
+        yi = y[i]
+        ok = {'<=': yi <= f + 4 * tolf, '>=': yi >= f - 4 * tolf, '!=': yi != f}[cmp]
+        obs.check(ok, 'rel:every one of several relations on one variable holds on the output', text=text, line='%s %s %s' % (l, cmp, r), x=x, y=y, f=f, kind=kind)
+        if not T.holds(x[i], cmp, f): viol += 1
+    obs.check(all(y[j] == x[j] for j in range(n) if j != i), 'frame:the output differs from the input at most in the isolated variable', text=text, x=x, y=y)
+    if viol == 0 and all(abs(x[i] - f) > 4 * T.tolerance(f) for f in fs):
+        obs.check(y == x, 'frame:an input that already satisfies the relation is returned unchanged', text=text, x=x, y=y, kind=kind)
+    obs.event('same_variable_cases')
+    obs.nontrivial = viol >= 1
+    obs.notes = {'violated_before': viol}
+
+
 def run_bounds(rng, obs):
     from mystic.constraints import boundsconstrain
     n = rng.randint(1, 6)
@@ -297,4 +342,4 @@ def run_case(cls, idx, rng, obs):
     import warnings
     warnings.simplefilter('ignore')
     np.seterr(all='ignore')
-    return {'single': run_single, 'interleaved': run_interleaved, 'multi': run_multi, 'bounds': run_bounds, 'named_collision': run_collision}[cls](rng, obs)
+    return {'single': run_single, 'interleaved': run_interleaved, 'multi': run_multi, 'same_variable': run_same_variable, 'bounds': run_bounds, 'named_collision': run_collision}[cls](rng, obs)
